@@ -10,7 +10,7 @@ import shutil
 import subprocess
 import sys
 
-SEEDS = '/tmp/seeds'
+SEEDS = os.environ.get('SEEDS', '/tmp/seeds')
 WT = '/tmp/wtv'
 OUT = '/verif/seeded'
 ENV = dict(os.environ, CARGO_NET_OFFLINE='true', CARGO_TERM_COLOR='never')
@@ -23,9 +23,10 @@ APPEND = {
     'C20-1': ('demo_test.rs', 'src/progress_fancy.rs', 'c20_1_demo'),
     'C20-2': ('demo_test.rs', 'src/progress_fancy.rs', 'c20_2_demo'),
     'C12-2': ('depfile_truncated_test.rs', 'src/depfile.rs', 'c12_truncated'),
+    'C15-3': ('depfile_leading_backslash_test.rs', 'src/depfile.rs', 'c15_3'),
 }
 # shell demonstrations taking the n2 binary
-SHELL = {'C02-1': 'demo.sh', 'C02-2': 'demo.sh', 'C18-1': 'demo.sh', 'C18-2': 'demo.sh', 'C19-2': 'demo.sh'}
+SHELL = {'C02-1': 'demo.sh', 'C02-2': 'demo.sh', 'C18-1': 'demo.sh', 'C18-2': 'demo.sh', 'C19-2': 'demo.sh', 'C02-3': 'demo.sh'}
 
 
 def sh(cmd, cwd, timeout=1800):
